@@ -1512,11 +1512,15 @@ fn joback(nc: usize) -> feos::ideal_gas::Joback {
     Joback::from_records(recs, None).unwrap()
 }
 
-fn worst_dev(a: &[f64], b: &[f64]) -> f64 {
+/// relative deviation beyond an absolute round-off floor (for quantities that are exact zeros by cancellation)
+fn worst_dev(a: &[f64], b: &[f64], floor: f64) -> f64 {
     if a.len() != b.len() {
         return f64::INFINITY;
     }
-    a.iter().zip(b.iter()).map(|(x, y)| rel_dev(*x, *y)).fold(0.0, f64::max)
+    a.iter()
+        .zip(b.iter())
+        .map(|(x, y)| if (x - y).abs() <= floor { 0.0 } else { rel_dev(*x, *y) })
+        .fold(0.0, f64::max)
 }
 
 /// Every ordered pair (A, B) of public property functions: B evaluated after A on the same state (and on a clone taken after A)
@@ -1531,6 +1535,53 @@ fn api_pairs(c: &Config, rs: &RState, rng: &mut Rng, full: bool) -> Value {
     // composite properties (differences and quotients of derivatives) amplify the round-off between dual number types
     let tol = 1e3 * value_tol(density_fraction(c, rs));
     let fresh: Vec<Result<Vec<f64>, String>> = fns.iter().map(|f| guard(|| (f.call)(&mk()))).collect();
+    // Round-off floor of every function at this state: some properties are exact zeros by cancellation (dln_phi_dnj of a pure
+    // component, Gibbs-Duhem), where a relative comparison is meaningless.  The floor is 100 x the change of the value when the
+    // cache is first filled through the highest-order requests (all Third, all SecondMixed; in both orders) instead of directly —
+    // the benign, round-off-only history dependence measured by the consistency sweep.
+    let nd = nc + 2;
+    let mut prelude: Vec<Rq> = (0..nd).map(Rq::T).collect();
+    for a in 0..nd {
+        for b in a..nd {
+            prelude.push(Rq::M(a, b));
+        }
+    }
+    let issue_e = |st: &StE, r: &Rq| match *r {
+        Rq::Z => st.verif_cache_request(0, Derivative::DV, Derivative::DV),
+        Rq::F(d) => st.verif_cache_request(1, deriv(d), Derivative::DV),
+        Rq::S(d) => st.verif_cache_request(2, deriv(d), Derivative::DV),
+        Rq::M(a, b) => st.verif_cache_request(3, deriv(a), deriv(b)),
+        Rq::T(d) => st.verif_cache_request(4, deriv(d), Derivative::DV),
+    };
+    let floors: Vec<f64> = fns
+        .iter()
+        .zip(fresh.iter())
+        .map(|(f, fr)| {
+            let fr = match fr {
+                Ok(x) => x,
+                Err(_) => return 0.0,
+            };
+            let mut fl = 0.0f64;
+            for rev in [false, true] {
+                let st = mk();
+                let mut p = prelude.clone();
+                if rev {
+                    p.reverse();
+                }
+                for r in &p {
+                    let _ = issue_e(&st, r);
+                }
+                if let Ok(v) = guard(|| (f.call)(&st)) {
+                    for (x, y) in v.iter().zip(fr.iter()) {
+                        if (x - y).is_finite() {
+                            fl = fl.max((x - y).abs());
+                        }
+                    }
+                }
+            }
+            100.0 * fl
+        })
+        .collect();
     let mut pairs = 0usize;
     let mut worst = 0.0f64;
     let mut worst_case = json!(null);
@@ -1581,7 +1632,7 @@ fn api_pairs(c: &Config, rs: &RState, rng: &mut Rng, full: bool) -> Value {
                     continue;
                 }
             };
-            let d = worst_dev(&direct, fb).max(worst_dev(&on_clone, fb));
+            let d = worst_dev(&direct, fb, floors[ib]).max(worst_dev(&on_clone, fb, floors[ib]));
             if d > worst {
                 worst = d;
                 worst_case = json!({"first": a.name, "then": b.name, "rel_dev": if d.is_finite() { json!(d) } else { json!("inf") }});
@@ -1594,6 +1645,7 @@ fn api_pairs(c: &Config, rs: &RState, rng: &mut Rng, full: bool) -> Value {
                 f["fresh_state"] = json!(fb);
                 f["rel_dev"] = if d.is_finite() { json!(d) } else { json!("inf") };
                 f["tolerance"] = json!(tol);
+                f["absolute_round_off_floor"] = json!(floors[ib]);
                 failures.push(f);
             }
         }
